@@ -66,7 +66,7 @@ def gen_cases(seed, n, maxops, outdir):
     rng = random.Random(seed)
     cases = []
     for t in range(n):
-        L, _n = trmod._rand_layout(rng, rng.randint(1, 3))
+        L, _n = trmod._rand_layout(rng, rng.randint(1, 3), allow_union=True)
         ops = [_rand_op(rng) for _ in range(rng.randint(2, maxops))]
         cases.append({"act": "pychain", "id": t, "layout": L, "ops": ops, "outdir": outdir})
     return cases
@@ -255,7 +255,10 @@ def collect(outdir):
         if fn.startswith("ev-"):
             with open(os.path.join(outdir, fn)) as f:
                 for line in f:
-                    r = json.loads(line)
+                    try:
+                        r = json.loads(line)
+                    except ValueError:
+                        continue          # a process that died mid-write; its chain is re-run (and reported) by the isolation
                     recs[r["id"]] = r
     return [recs[k] for k in sorted(recs)]
 
